@@ -40,6 +40,15 @@ CAGEN = ["Meddly.CounterArrayGen." + t for t in [
     "gen_step", "fitN_step", "gen_run_sim", "gen_counter_refines", "gen_width_inv", "gen_tally_exact",
     "gen_model_agrees", "gen_junk_irrelevant"]]
 
+# Theorems tying the hand-written State/NodeLife.lean to the GENERATED Gen/NodeHeaders.lean (<- node_headers.h, node_headers.cc)
+NHGEN = ["Meddly.NodeHeadersGen." + t for t in [
+    "isDeleted_hdr", "isActive_hdr", "deactivate_hdr", "counts_hdr", "linkNode_hdr", "cacheNode_hdr", "unlinkNode_hdr",
+    "uncacheNode_hdr", "terminal_noop", "cls_toGen", "link_sim", "cache_sim", "unlink_sim", "step_uncache", "uncache_sim",
+    "gen_step_total", "gen_deleted_iff", "gen_recycled_iff", "gen_never_recycled_while_cached", "gen_inv_step",
+    "gen_revive_iff", "ginv_toGen", "ofGen_toGen", "callG_unlink", "callG_uncache", "callG_link", "callG_cache",
+    "drainG_eq", "stepG_eq", "lvlpos_step", "runG_eq", "gen_machine", "countsFit_of_table"]] + \
+    ["Meddly.NodeHeadersCounter.counter_spec"]
+
 # family run: (family, flavor, extra args)
 def fam(name, flavor="plain", **kw):
     # keys starting with "_" are for the runner, not the harness: _only=<regex> keeps only the disagreements of
@@ -51,9 +60,10 @@ def fam(name, flavor="plain", **kw):
     return spec
 
 
-# family gen validates three translators: level arithmetic + hash stream (C01/C02) and counter_array (C06)
-NOT_GC = r"kind=(?!gen-gc)"
-ONLY_GC = r"kind=(gen-gc|crash|truncated|unknown)"
+# family gen validates four translators: level arithmetic + hash stream (C01/C02), counter_array and node_headers (C06:
+# kinds gen-gc*, gen-nh*)
+NOT_GC = r"kind=(?!gen-gc|gen-nh)"
+ONLY_GC = r"kind=(gen-gc|gen-nh|crash|truncated|unknown)"
 
 # disagreement kinds that are violations of C02 (the stored structure itself is malformed)
 STRUCT_KINDS = r"kind=(canonical|canonicity|node-count|crash|views-agree\S*|views-hash-alike\S*|unique-table-finds-node\S*)"
@@ -196,19 +206,21 @@ PROPS = {
         "theorems": ["Meddly.NodeLife." + t for t in [
             "counts_exact", "no_dangling", "held_alive", "content_stable", "reuse_only_free",
             "no_reuse_while_cached", "all_reclaimed", "all_reclaimed_pessimistic", "release_never_fails"]] +
-            ["Meddly.CounterArray." + t for t in ["counter_refines", "width_inv", "tally_exact"]] + CAGEN +
+            ["Meddly.CounterArray." + t for t in ["counter_refines", "width_inv", "tally_exact"]] + CAGEN + NHGEN +
             ["Meddly.Dump.check_sound", "Meddly.Dump.evalFast_eq_evalChild"] +
             # the recount certificate run on every dump (Recount.ok) and what an accepted dump implies
             ["Meddly.Recount." + t for t in ["top_unreferenced", "exists_unreferenced_of_no_roots", "count_zero_of_no_roots",
                                              "no_leak", "root_counted"]],
-        # regenerated from arrays.h / arrays.cc on every run; a failed translator is a broken obligation
-        "gen": ["Gen.CounterArray"],
+        # regenerated from arrays.h / arrays.cc and node_headers.h / node_headers.cc on every run; a failed translator is a
+        # broken obligation
+        "gen": ["Gen.CounterArray", "Gen.NodeHeaders"],
         "quick": [fam("nodelife"), fam("canon"), fam("oplife"), fam("gen", _only=ONLY_GC)],
         "thorough": [fam("nodelife", "asan"), fam("canon", "asan"), fam("oplife", "asan"), fam("gen", "asan", _only=ONLY_GC)],
-        "leanchecker": ["MeddlyModel.State.NodeLife", "MeddlyModel.State.CounterArray", "MeddlyModel.Props.CounterArrayGen"],
+        "leanchecker": ["MeddlyModel.State.NodeLife", "MeddlyModel.State.CounterArray", "MeddlyModel.Props.CounterArrayGen",
+                        "MeddlyModel.Props.NodeHeadersGen"],
         "level_text": "NodeLife state machine (per handle free | active(level, in, cc, children) | deleted(cc); explicit multiset of outside references; pessimistic / optimistic policy) with theorems for EVERY legal op list: counts_exact (incoming count = number of references), no_dangling, held_alive, content_stable (a held node keeps level and children), reuse_only_free, no_reuse_while_cached, all_reclaimed (no references and no cache marks => every handle free; pessimistic: no references => no active handle). CounterArray refines a plain array of naturals through the 8/16/32-bit widening and narrowing. Tie: (D) a real forest driven at the primitive level (createReducedNode / link / unlink / cache / uncache / dd_edge set-copy-clear) with the state of EVERY handle compared with the model after every step, counts pushed across 255 and 65535, handle table grown and shrunk; the real counter_array class driven op by op; (S) in the canon family every dump is recounted (parents + registered roots = reported incoming count), every held edge is re-evaluated against its target after GC churn, and after releasing all edges and clearing caches the forest must report 0 nodes (Recount.no_leak: for a dump accepted by the recount with no user edge left, 'every node has a positive count' is contradictory unless the store is empty - the highest node is referenced by nobody - so the 0-nodes expectation follows from the certificate plus the reclamation rule; Recount.root_counted: a held edge's target has a positive count); family oplife does the same over random HISTORIES of real operations (set algebra, COMPLEMENT, COPY between rules, POST/PRE_IMAGE, integer and EV+ arithmetic, comparisons; edge copies, assignments, releases, cache clears) over up to four forests with random rules and policies on STRUCTURED operands (identity patterns, redundant and fixed variables - the shapes on which operations take early exits and chain builders): exact recount of every forest at random points, every result against the pointwise oracle, every held edge keeps its function, every forest empty at the end.",
-        "level_note": "Translator tie for the counter widths: the whole class counter_array (constructor, get, swap, increment, decrement, isZeroBeforeIncrement, isPositiveAfterDecrement, entry_bits from arrays.h; expand, shrink, expand8to16, expand16to32, shrink16to8, shrink32to16, shrink32to8 from arrays.cc) is regenerated into Lean on every run (Gen/CounterArray.lean: three optional arrays, explicit wrap-around of unsigned char / short / int / size_t, malloc / realloc / memset / free and the copy loops, unspecified contents of fresh memory as a universally quantified parameter); Props/CounterArrayGen.lean proves every generated member equal to the hand-written CounterArray model on every in-contract call (for every content of fresh memory) and restates counter_refines / width_inv / tally_exact for the generated step function, so these are statements about the CURRENT text of arrays.h / arrays.cc; the differential family gen validates the translator against the real class (with a recording array_watcher). Paired (every creation/destruction of a reference carries its link/unlink) is the legality of the model run; on the implementation it is checked by the recount certificate, not assumed. A C++-level use-after-free cannot be exhibited by the theorem: the thorough tier runs the ASan flavour. Which free handle is picked is nondeterminism of the model. 'never delete' is indistinguishable from optimistic in the code and is mapped so.",
-        "technique": "Lean 4 proof (invariants by induction over op lists, refinement) + translator (clang AST of arrays.h / arrays.cc -> Lean) with equality proofs + step-by-step differential run on a real forest + recount certificate on dumps",
+        "level_note": "Translator tie for the counter widths: the whole class counter_array (constructor, get, swap, increment, decrement, isZeroBeforeIncrement, isPositiveAfterDecrement, entry_bits from arrays.h; expand, shrink, expand8to16, expand16to32, shrink16to8, shrink32to16, shrink32to8 from arrays.cc) is regenerated into Lean on every run (Gen/CounterArray.lean: three optional arrays, explicit wrap-around of unsigned char / short / int / size_t, malloc / realloc / memset / free and the copy loops, unspecified contents of fresh memory as a universally quantified parameter); Props/CounterArrayGen.lean proves every generated member equal to the hand-written CounterArray model on every in-contract call (for every content of fresh memory) and restates counter_refines / width_inv / tally_exact for the generated step function, so these are statements about the CURRENT text of arrays.h / arrays.cc; the differential family gen validates the translator against the real class (with a recording array_watcher). Translator tie for the lifetime decisions: linkNode, unlinkNode, cacheNode, uncacheNode, isDeleted, isActive, deactivate, getIncomingCount, getNodeCacheCount (node_headers.h) and lastUnlink, lastUncache (node_headers.cc) are regenerated into Lean on every run (Gen/NodeHeaders.lean: transition functions of the header of ONE handle - level entry, incoming count, cache count behind optional array pointers, the flag pessimistic - plus the ghost list of the calls that leave the class: parent.deleteNode(p), recycleNodeHandle(p), reviveNode(p)); Props/NodeHeadersGen.lean proves closed forms of every generated function, one simulation theorem per operation against NodeLife's per-handle transition (same counts, same class, same decision delete / recycle / keep), the reclamation rule for the generated code (gen_deleted_iff: the node is deleted exactly when in = 0 and (pessimistic or cc = 0); gen_recycled_iff: the handle is recycled exactly when in = 0 and cc = 0; gen_never_recycled_while_cached), and that NodeLife's whole machine with every per-handle transition computed by the generated code and the cascade driven by its deleteNode events IS NodeLife's machine on every legal history (stepG_eq, runG_eq, gen_machine), so counts_exact / no_dangling / all_reclaimed / all_reclaimed_pessimistic / reuse_only_free are statements about the CURRENT text of node_headers.h / .cc. Assumed, not translated: the effect of forest::deleteNode on the header (= deactivate; checked syntactically), recycleNodeHandle / getFreeNodeHandle (free lists, a_last: events only), the counter_array calls through their one-entry specification Counter.* (proved for the generated counter_array: counter_spec), the reference-counting configuration (REFCOUNTS_ON, useReferenceCounts). The differential family gen replays random in-contract link / unlink / cache / uncache histories on the real nodes of a real forest under both policies through the generated functions (kinds gen-nh*). Paired (every creation/destruction of a reference carries its link/unlink) is the legality of the model run; on the implementation it is checked by the recount certificate, not assumed. A C++-level use-after-free cannot be exhibited by the theorem: the thorough tier runs the ASan flavour. Which free handle is picked is nondeterminism of the model. 'never delete' is indistinguishable from optimistic in the code and is mapped so.",
+        "technique": "Lean 4 proof (invariants by induction over op lists, refinement) + translator (clang AST of arrays.h / arrays.cc -> Lean) with equality proofs + translator (clang AST of node_headers.h / node_headers.cc -> Lean) with simulation proofs against NodeLife + step-by-step differential run on a real forest + recount certificate on dumps",
         "partial": ["mark-and-sweep forests not covered", "EV/quasi/identity forests only through the canon-family recount"],
     },
     "C17": {
@@ -448,7 +460,7 @@ PROPS = {
                   'replay of the model on dumps of the real forests',
      'partial': ['edge values and the index-set header only by correspondence (no Lean model)',
                  'decimal formatting of reals not modelled',
-                 'FINDING C14-F1: domain::create(input&) reverses the variable order written by domain::write (probe case reports it on every run)']},
+                 '(C14-F1, domain::create(input&) reversing the variable order written by domain::write, is repaired in /repo: fix 50387d1; its probe case still runs on every check and the domain-from-file path is exercised unsteered)']},
     "C16": {'title': 'Misuse is rejected with the documented error and leaves all functions intact',
      'theorems': ['Meddly.Errors.precheck_total_partial',
                   'Meddly.Errors.precheck_sound_partial',
@@ -619,8 +631,14 @@ PROPS = {
                   'Meddly.DD.swap_swap',
                   'Meddly.DD.relSwap_four_level_swaps_partial',
                   'Meddly.DD.mkNode_red'],
-     'quick': [{'family': 'reorder', 'flavor': 'plain', 'args': {}}, {'family': 'reorder', 'flavor': 'asan', 'args': {'cases': 110}}],
-     'thorough': [{'family': 'reorder', 'flavor': 'plain', 'args': {}}, {'family': 'reorder', 'flavor': 'asan', 'args': {'cases': 300}}],
+     # the third run SCREENS many more cases in the harness (a held function changed, an evaluation threw, a rebuilt
+     # function is not the held edge, a leak) and writes out only the suspicious ones plus every 400th as a sample:
+     # the search is the harness's, the verdict on what is written out is the acceptor's (seed C13b needs ~1 case in 3500)
+     'quick': [{'family': 'reorder', 'flavor': 'plain', 'args': {}}, {'family': 'reorder', 'flavor': 'asan', 'args': {'cases': 110}},
+               {'family': 'reorder', 'flavor': 'plain', 'args': {'only': 'relations', 'screen': 400, 'cases': 20000}}],
+     'thorough': [{'family': 'reorder', 'flavor': 'plain', 'args': {}}, {'family': 'reorder', 'flavor': 'asan', 'args': {'cases': 300}},
+                  {'family': 'reorder', 'flavor': 'plain', 'args': {'only': 'relations', 'screen': 400, 'cases': 120000}},
+                  {'family': 'reorder', 'flavor': 'plain', 'args': {'screen': 400, 'cases': 60000}}],
      'leanchecker': ['MeddlyModel.Ops.Reorder'],
      'design_ref': 'DESIGN.md §5 C13',
      'level_text': 'Orders: every swap of an adjacent inversion (the test the heuristics apply to var2level of the target) removes exactly one inversion '
